@@ -1,6 +1,7 @@
 """C19 - saving and loading a configuration reproduces the same evaluator."""
 from __future__ import annotations
 
+import contextlib
 import glob
 import os
 import re
@@ -89,6 +90,9 @@ def evaluator_case(draw):
         "decision": dec, "imetrics": imets, "gmetrics": gmets, "handler": handler, "groups": groups, "flags": flags,
         "nondefault": nondefault + (1 if it == "SEMANTIC" else 0),
         "random_probes": [[p.tolist(), r.tolist()] for p, r in rnd],
+        # where the two files of the round trip go (sibling names that differ in little), whether they are addressed by
+        # path or by name, and whether the evaluator has been used (on a 3-D and a 2-D input) before it is saved
+        "files": draw(st.sampled_from(FILE_NAMES)), "via": draw(st.sampled_from(["path", "path", "name"])), "used_first": draw(st.booleans()),
     }
 
 
@@ -240,9 +244,52 @@ def same_behaviour(b1, b2):
     return None
 
 
-def roundtrip(obj, cls, d, name):
-    p1, p2 = os.path.join(d, name + "_1.yaml"), os.path.join(d, name + "_2.yaml")
+FILE_NAMES = [["ev_1.yaml", "ev_2.yaml"], ["cfg.v1", "cfg.v2"], ["eval_iou0.3", "eval_iou0.7"], ["conf", "conf.yaml"], ["a.b.yaml", "a.c.yaml"], ["x.yml", "x.yaml"], ["run1", "run2"]]
+
+
+@contextlib.contextmanager
+def named_configs_in(d):
+    """save_to_config_by_name / load_from_config_name resolve names inside the installed package; for the round trip
+    by name the two resolving helpers are pointed at the scratch directory (the package directory is never written)."""
+    import panoptica.utils.config as C
+    from pathlib import Path
+
+    saved = (C.config_by_name, C.config_dir_by_name)
+    fix = lambda n: n if n.endswith(".yaml") else n + ".yaml"  # noqa: E731
+    C.config_dir_by_name = lambda name: (Path(d), fix(name))
+    C.config_by_name = lambda name: Path(d) / fix(name)
+    try:
+        yield
+    finally:
+        C.config_by_name, C.config_dir_by_name = saved
+
+
+def roundtrip(obj, cls, d, name, files=None, decoy=None, via="path"):
+    if via == "name":
+        # by name: a decoy is saved and loaded under the name first, then the object itself
+        nm = (files or [name])[0]
+        with named_configs_in(d):
+            if decoy is not None:
+                H.lib_call(decoy.save_to_config_by_name, nm)
+                H.lib_call(cls.load_from_config_name, nm)
+            H.lib_call(obj.save_to_config_by_name, nm)
+            loaded = H.lib_call(cls.load_from_config_name, nm)
+            if type(loaded) is not type(obj):
+                raise Violation(f"loaded object has type {type(loaded).__name__}, saved a {type(obj).__name__}")
+            p1 = os.path.join(d, nm if nm.endswith(".yaml") else nm + ".yaml")
+            t1 = open(p1).read()
+            H.lib_call(loaded.save_to_config_by_name, nm)
+            t2 = open(p1).read()
+        if t1 != t2:
+            raise Violation(f"save(load(save(x))) by name differs from save(x):\n{t1}\n---\n{t2}")
+        return loaded, t1
+    f1, f2 = files or (name + "_1.yaml", name + "_2.yaml")
+    p1, p2 = os.path.join(d, f1), os.path.join(d, f2)
     H.lib_call(obj.save_to_config, p1)
+    if decoy is not None:
+        H.lib_call(decoy.save_to_config, p2)  # another configuration next to it
+    if not os.path.isfile(p1):
+        raise Violation(f"save_to_config({f1!r}) did not write that file (directory holds {sorted(os.listdir(d))})")
     loaded = H.lib_call(cls.load_from_config, p1)
     if type(loaded) is not type(obj):
         raise Violation(f"loaded object has type {type(loaded).__name__}, saved a {type(obj).__name__}")
@@ -289,8 +336,19 @@ def check_evaluator(case, stats, d):
     stats.record(case, case["nondefault"] >= 3, [f"input={case['input']}", f"nondefault={min(case['nondefault'], 8)}",
                                                  "groups" if case["groups"] else "nogroups", "handler" if case["handler"] else "default_handler",
                                                  f"matcher={'none' if not case['matcher'] else case['matcher']['kind'] + ('+m2o' if case['matcher'].get('m2o') else '')}"])
-    loaded, _ = roundtrip(ev, Panoptica_Evaluator, d, "ev")
+    decoy_cfg = {**cfg, "decision": None if cfg["decision"] else ["IOU", 0.9], "gmetrics": [] if cfg["gmetrics"] else ["DSC", "IOU"],
+                 "matcher": {**cfg["matcher"], "thr": 0.0 if cfg["matcher"]["thr"] else 0.9} if cfg.get("matcher") else None}
+    if case.get("used_first"):
+        # the object that gets saved is not fresh: it has evaluated a volume and an image before
+        a = defined[0] if defined else 1
+        for shp in ((2, 3, 3), (3, 3)):
+            probe = np.zeros(shp, dtype=np.uint8)
+            probe[..., 0, 0] = a
+            probe[..., 1, 1] = a
+            H.lib_call(ev.evaluate, probe, probe.copy())
+    loaded, _ = roundtrip(ev, Panoptica_Evaluator, d, "ev", files=case.get("files"), decoy=lib.evaluator(decoy_cfg), via=case.get("via", "path"))
     compare_evaluators(ev, loaded, case, defined, "evaluator")
+    stats.count(f"roundtrip_via_{case.get('via', 'path')}")
 
 
 def check_shipped(case, stats, d):
